@@ -483,6 +483,44 @@ func c12prop(ev *evid.Rec) func(rt *rapid.T) {
 					c.conn.Request(hlref.TranSetChatSubject, fld(hlref.FChatID, []byte(ch.id)), fld(hlref.FChatSubject, subj))
 					verify("set subject", memberLines(ch, fmt.Sprintf("119 chat=%x subject=%q", ch.id, subj)))
 				},
+				"unknownChat": func(rt *rapid.T) {
+					// a chat request naming a chat the server does not know (stale or invented id): refused one way or another
+					// - the requester may even be dropped - but nobody else is affected, now or later
+					if len(connected()) <= 2 {
+						rt.Skip()
+					}
+					c := pick("who", isConn)
+					id := genBytes(rt, "chatid", 4)
+					for _, ch := range chats {
+						if ch.id == string(id) {
+							rt.Skip()
+						}
+					}
+					kind := rapid.SampledFrom([]string{"subject", "subject", "send", "join", "leave", "decline"}).Draw(rt, "kind") // (an invitation is not among the deliveries the property constrains)
+					history = append(history, fmt.Sprintf("unknown-chat %s by %d", kind, c.idx))
+					cid := fld(hlref.FChatID, id)
+					switch kind {
+					case "subject":
+						c.conn.Request(hlref.TranSetChatSubject, cid, sfld(hlref.FChatSubject, "s"))
+					case "send":
+						c.conn.Request(hlref.TranChatSend, cid, sfld(hlref.FData, "into the void"))
+					case "join":
+						c.conn.Request(hlref.TranJoinChat, cid)
+					case "leave":
+						c.conn.Request(hlref.TranLeaveChat, cid)
+					case "decline":
+						c.conn.Request(hlref.TranRejectChatInvite, cid)
+					}
+					settle(0)
+					if c.conn.EOF() {
+						c.connected = false
+						for _, ch := range chats {
+							delete(ch.members, c.idx)
+							delete(ch.invited, c.idx)
+						}
+					}
+					verify("request naming an unknown chat", nil)
+				},
 				"burst": func(rt *rapid.T) {
 					// several members of one private chat act at the same instant (their handlers run concurrently):
 					// lines sent by 2+ members, optionally while another member leaves / an invited user joins
